@@ -97,43 +97,28 @@ Proof. exact pg_ident_cases. Qed.
     [read_ident] / [lex_chain]) as exactly the chain [q; name; ...]: the requested qualifier
     stands as one quoted identifier in front of the reference.
 
-    It is FALSE of the faithful model: [Builder.Ident] writes the name raw, a quote
-    character inside is not doubled (witness: qualifier  a, double quote, b  -- reproduced on the Go code by
-    stage [plan], class ident-quote-unescaped, recorded finding): *)
-Theorem C16_one_identifier_refuted :
-  exists q t, lex_chain 34 34 (render_chain 34 34 [q; t] ++ [SP]) <> Some ([q; t], [SP]) /\
-              lex_chain 34 34 (quote_chain 34 34 [q; t] ++ [SP]) = Some ([q; t], [SP]).
-Proof. exists w_q, w_t. exact raw_quote_refuted. Qed.
-
-(** What does hold.  (i) exactly: ONE raw identifier reads back as its name iff the name
-    is free of the closing quote character; *)
-Theorem C16_one_identifier_exact :
-  forall qc n rest, not_starts qc rest ->
-  (read_ident qc (n ++ qc :: rest) = Some (n, rest) <-> quote_free qc n).
-Proof. exact read_ident_raw_iff. Qed.
-
-(** (ii) every chain of quote-free names, followed by any text that does not continue it,
-    reads back as exactly that chain (with 1a: the chain of a qualifying call under qualifier
-    [q] is [q :: names]); *)
-Theorem C16_one_identifier_except :
+    It holds since fix C16-ident-double-quote-char (/repo: "fix: sqlx.Builder.Ident writes a
+    quote character inside a name twice"); the model's [Ident] follows it.
+    (i) every chain, every name, followed by any text that does not continue it: *)
+Theorem C16_one_identifier :
   forall qo qc l post,
-  qc <> DOT -> l <> [] -> Forall (quote_free qc) l -> chain_ends qo qc post ->
+  qc <> DOT -> l <> [] -> chain_ends qo qc post ->
   lex_chain qo qc (render_chain qo qc l ++ post) = Some (l, post).
 Proof. exact render_chain_reads_back. Qed.
 
-(** (iii) end to end for one qualifying call on ANY builder state: under qualifier [q],
+(** (ii) end to end for one qualifying call on ANY builder state: under qualifier [q],
     [mayQualify] (Table / TableResource / SchemaResource / ...) appends a text that reads as
-    exactly [q :: top :: children] -- whatever schema the object itself carries; *)
+    exactly [q :: top :: children] -- whatever schema the object itself carries, whatever
+    characters the names hold; *)
 Theorem C16_one_identifier_call :
   forall b s top children q,
   bschema b = Some q -> nonempty q -> nonempty top -> Forall nonempty children ->
   qc b <> DOT -> qc b <> SP ->
-  Forall (quote_free (qc b)) (q :: top :: children) ->
   exists pre, out (mayQualify b s top children) = out b ++ pre /\
     lex_chain (qo b) (qc b) pre = Some (q :: top :: children, [SP]).
 Proof. exact mayQualify_reads_back. Qed.
 
-(** (iii') ... and for a qualifying call ANYWHERE in a call sequence (1a + 1i): whatever is
+(** (iii) ... and for a qualifying call ANYWHERE in a call sequence (1a + (i)): whatever is
     called later -- with non-empty names in the later qualifying calls, the caveat of 1a -- the
     byte after the chain is a separator (' ', ',', newline, ')', single quote, '('), never a
     '.', so the server reads exactly the emitted chain: under qualifier [q] it is [q :: names]
@@ -145,19 +130,35 @@ Theorem C16_one_identifier_sequence :
   emitted_chain (bschema b1) o = Some l ->
   wf_op o -> Forall wf_op ops2 ->
   ~ sepA (qc b1) -> qc b1 <> DOT ->
-  Forall (quote_free (qc b1)) l ->
   exists post,
     out (run b (ops1 ++ o :: ops2)) = out b1 ++ render_chain (qo b1) (qc b1) l ++ post /\
     lex_chain (qo b1) (qc b1) (render_chain (qo b1) (qc b1) l ++ post) = Some (l, post).
 Proof. exact builder_reads_back. Qed.
 
-(** (iv) the specification is satisfiable: the spelling with doubled quote characters
-    reads back for EVERY name (what a repaired [Ident] would write). *)
-Theorem C16_quoted_chain_reads_back :
+(** For the record, the RAW spelling (the code before the fix: the name copied between the
+    quotes) was not one identifier for a name with the quote character (formerly
+    C16_one_identifier_refuted; witness: a, double quote, b), *)
+Theorem C16_raw_spelling_refuted :
+  exists q t, lex_chain 34 34 (raw_chain 34 34 [q; t] ++ [SP]) <> Some ([q; t], [SP]) /\
+              lex_chain 34 34 (render_chain 34 34 [q; t] ++ [SP]) = Some ([q; t], [SP]).
+Proof. exists w_q, w_t. exact raw_quote_refuted. Qed.
+
+(** it read back as the name exactly for names free of the closing quote character, *)
+Theorem C16_raw_spelling_exact :
+  forall qc n rest, not_starts qc rest ->
+  (read_ident qc (n ++ qc :: rest) = Some (n, rest) <-> quote_free qc n).
+Proof. exact read_ident_raw_iff. Qed.
+
+Theorem C16_raw_spelling_except :
   forall qo qc l post,
-  qc <> DOT -> l <> [] -> chain_ends qo qc post ->
-  lex_chain qo qc (quote_chain qo qc l ++ post) = Some (l, post).
-Proof. exact quote_chain_reads_back. Qed.
+  qc <> DOT -> l <> [] -> Forall (quote_free qc) l -> chain_ends qo qc post ->
+  lex_chain qo qc (raw_chain qo qc l ++ post) = Some (l, post).
+Proof. exact raw_chain_reads_back. Qed.
+
+(** and on those names both spellings are the same bytes (the fix changes nothing there). *)
+Theorem C16_raw_spelling_same :
+  forall o c n, quote_free c n -> render_ident o c n = raw_ident o c n.
+Proof. exact render_ident_quote_free. Qed.
 
 (** 1l. One plan, one namespace (PostgreSQL).  Full statement: typeIdent / schemaPrefix
     ([%q] = strconv.Quote) and Builder.Table write, for the same qualifier, texts that the
@@ -265,39 +266,42 @@ Proof. intros q mode cs H. exact (loop_no_panic q mode cs H []). Qed.
     every history and every next desired state (all in ONE schema), the schema-scoped plan
     requested with a qualifier is produced -- CheckChangesScope has no reason to see two schemas.
 
-    It is FALSE of the faithful model (Qual/Replay.v): Planner.plan renames a shallow copy of
-    the replayed schema object, the replayed tables keep pointing to the original, which
-    carries the dev database's name; a DropTable next to an Add/ModifyTable names two schemas.
-    Witness: dev schema "dev", desired schema "app", history [t1, t2], next state [t2, t3]
-    (reproduced on the Go code by stage [replay], class replay-plan-rejected-two-schemas,
-    recorded finding): *)
-Theorem C16_replay_refuted :
-  exists modified dev user cur des,
-  dev <> [] /\ user <> [] /\
-  Planner_plan modified false (Some []) 0 dev user [] cur des = PRejected (EMulti 2).
-Proof.
-  exists never, n_dev, n_app, [t1; t2], [t2; t3].
-  split; [discriminate|]. split; [discriminate|]. exact (proj1 replay_witness).
-Qed.
-
-(** What does hold.  (i) the code's exact condition: the plan is rejected iff the two names
-    differ, a table is dropped and a table is added or modified -- for every table-diff
-    function [modified], qualifier, mode, object changes and table lists; *)
-Theorem C16_replay_code :
-  forall modified q mode dev user objs cur des,
-  dev <> [] -> user <> [] ->
-  let cs := schema_diff modified dev user objs cur des in
-  ((exists r, Planner_plan modified false (Some q) mode dev user objs cur des = PRejected r) <->
-   (dev <> user /\ existsb is_drop cs = true /\ existsb is_addmod cs = true)).
-Proof. exact planner_rejects_iff. Qed.
-
-(** (ii) with the replayed schema object itself renamed (notes/fixes/C16-planner-replay-rename.diff)
-    the full statement holds. *)
+    It holds of the model (Qual/Replay.v) since fix C16-planner-replay-rename (/repo: "fix:
+    Planner.plan renames the replayed schema itself ..."): the replayed schema object is renamed
+    in place, its tables point to it, every table change names the desired schema.  For every
+    table-diff function [modified], qualifier, mode, object changes and table lists: *)
 Theorem C16_replay_repaired :
   forall modified q mode dev user objs cur des,
   user <> [] ->
-  forall r, Planner_plan modified true (Some q) mode dev user objs cur des <> PRejected r.
-Proof. exact planner_deep_never_rejects. Qed.
+  forall r, Planner_plan modified (Some q) mode dev user objs cur des <> PRejected r.
+Proof. exact planner_never_rejects. Qed.
+
+(** exactly: no plan when the diff is empty, a plan otherwise; and the name the dev database's
+    schema carries plays no role at all (formerly C16_replay_code, the rejection condition). *)
+Theorem C16_replay_code :
+  forall modified q mode dev user objs cur des,
+  user <> [] ->
+  Planner_plan modified (Some q) mode dev user objs cur des =
+    match schema_diff modified user user objs cur des with [] => PNoPlan | _ => PPlanned end.
+Proof. exact planner_plans_iff. Qed.
+
+Theorem C16_replay_dev_name_irrelevant :
+  forall modified q mode dev dev' user objs cur des,
+  Planner_plan modified q mode dev user objs cur des = Planner_plan modified q mode dev' user objs cur des.
+Proof. exact planner_dev_name_irrelevant. Qed.
+
+(** For the record, the code BEFORE the fix ([Planner_plan_before_fix]: a shallow copy of the
+    replayed schema was renamed, the replayed tables kept the dev database's name) rejected a
+    single-schema evolution exactly when the two names differed, a table was dropped and a table
+    was added or modified (formerly C16_replay_refuted; witness dev/app, [t1,t2] -> [t2,t3] in
+    ex_replay).  Reverting the fix makes stage [replay] report exactly these inputs. *)
+Theorem C16_replay_before_fix :
+  forall modified q mode dev user objs cur des,
+  dev <> [] -> user <> [] ->
+  let cs := schema_diff modified dev user objs cur des in
+  ((exists r, Planner_plan_before_fix modified (Some q) mode dev user objs cur des = PRejected r) <->
+   (dev <> user /\ existsb is_drop cs = true /\ existsb is_addmod cs = true)).
+Proof. exact before_fix_rejects_iff. Qed.
 
 Print Assumptions C16_builder.
 Print Assumptions C16_builder_chain.
@@ -305,17 +309,19 @@ Print Assumptions C16_builder_schema_kept.
 Print Assumptions C16_builder_requalify.
 Print Assumptions C16_builder_agnostic.
 Print Assumptions C16_builder_pg.
-Print Assumptions C16_one_identifier_refuted.
-Print Assumptions C16_one_identifier_exact.
-Print Assumptions C16_one_identifier_except.
+Print Assumptions C16_one_identifier.
 Print Assumptions C16_one_identifier_call.
 Print Assumptions C16_one_identifier_sequence.
-Print Assumptions C16_quoted_chain_reads_back.
+Print Assumptions C16_raw_spelling_refuted.
+Print Assumptions C16_raw_spelling_exact.
+Print Assumptions C16_raw_spelling_except.
+Print Assumptions C16_raw_spelling_same.
 Print Assumptions C16_pg_same_namespace_refuted.
 Print Assumptions C16_pg_same_namespace_except.
-Print Assumptions C16_replay_refuted.
-Print Assumptions C16_replay_code.
 Print Assumptions C16_replay_repaired.
+Print Assumptions C16_replay_code.
+Print Assumptions C16_replay_dev_name_irrelevant.
+Print Assumptions C16_replay_before_fix.
 Print Assumptions C16_skeleton_partial.
 Print Assumptions C16_skeleton_no_bare_reference.
 Print Assumptions C16_scope_sound.
@@ -426,7 +432,7 @@ Example ex_skeleton_modify :
 Proof. vm_compute. reflexivity. Qed.
 
 (* round 3 *)
-(* C16_one_identifier_except / _call: qualifier acme.v2 (a dot inside), table <my t>, MySQL quotes *)
+(* C16_one_identifier / _call: qualifier acme.v2 (a dot inside), table <my t>, MySQL quotes *)
 Definition acme_v2 : bytes := [97; 99; 109; 101; 46; 118; 50].
 Definition my_t : bytes := [109; 121; 32; 116].
 Example ex_one_identifier :
@@ -435,16 +441,19 @@ Example ex_one_identifier :
   lex_chain 96 96 (out (Table b (mkObj (Some m_) my_t))) = Some ([acme_v2; my_t], [SP]).
 Proof. split; vm_compute; reflexivity. Qed.
 
-(* C16_one_identifier_exact: both directions are inhabited *)
-Example ex_one_identifier_exact :
+(* C16_raw_spelling_exact: both directions are inhabited *)
+Example ex_raw_spelling_exact :
   read_ident 34 ([97; 46; 98] ++ 34 :: [SP]) = Some ([97; 46; 98], [SP]) /\
   read_ident 34 ([97; 34; 98] ++ 34 :: [SP]) = Some ([97], [98; 34; SP]).
 Proof. split; vm_compute; reflexivity. Qed.
 
-(* C16_quoted_chain_reads_back: the witness of the refutation, spelled correctly *)
+(* C16_one_identifier on the former witness: qualifier a, double quote, b through the model's Table *)
 Example ex_quoted_chain :
-  quote_chain 34 34 [w_q; w_t] = [34; 97; 34; 34; 98; 34; 46; 34; 116; 34].
-Proof. vm_compute. reflexivity. Qed.
+  render_chain 34 34 [w_q; w_t] = [34; 97; 34; 34; 98; 34; 46; 34; 116; 34] /\
+  out (Table (new_builder 34 34 (Some w_q) []) (mkObj (Some m_) w_t)) = render_chain 34 34 [w_q; w_t] ++ [SP] /\
+  lex_chain 34 34 (out (Table (new_builder 34 34 (Some w_q) []) (mkObj (Some m_) w_t))) = Some ([w_q; w_t], [SP]) /\
+  raw_chain 34 34 [w_q; w_t] = [34; 97; 34; 98; 34; 46; 34; 116; 34].
+Proof. repeat split; vm_compute; reflexivity. Qed.
 
 (* C16_pg_same_namespace_*: a plain qualifier with a dot and a space; the backslash witness *)
 Example ex_pg_same_namespace :
@@ -453,15 +462,14 @@ Example ex_pg_same_namespace :
   typeIdent strconvQuote (Some w_bs) None w_t = [34; 97; 92; 92; 98; 34; 46; 34; 116; 34].
 Proof. repeat split; vm_compute; reflexivity. Qed.
 
-(* C16_replay_*: the witness is rejected by the code as it is, planned by the repaired code, and
-   planned by the code as it is when the dev schema carries the desired name; a lone DROP TABLE
-   is planned (right-hand side of C16_replay_code false) *)
+(* C16_replay_*: the former witness is planned; the code before the fix rejected it, and planned
+   it when the dev schema carried the desired name; a lone DROP TABLE; an unchanged state *)
 Example ex_replay :
-  Planner_plan never false (Some []) 0 n_dev n_app [] [t1; t2] [t2; t3] = PRejected (EMulti 2) /\
-  Planner_plan never true (Some []) 0 n_dev n_app [] [t1; t2] [t2; t3] = PPlanned /\
-  Planner_plan never false (Some []) 0 n_app n_app [] [t1; t2] [t2; t3] = PPlanned /\
-  Planner_plan never false (Some []) 0 n_dev n_app [] [t1; t2] [t2] = PPlanned /\
-  Planner_plan never false (Some []) 0 n_dev n_app [] [t1; t2] [t1; t2] = PNoPlan.
+  Planner_plan never (Some []) 0 n_dev n_app [] [t1; t2] [t2; t3] = PPlanned /\
+  Planner_plan_before_fix never (Some []) 0 n_dev n_app [] [t1; t2] [t2; t3] = PRejected (EMulti 2) /\
+  Planner_plan_before_fix never (Some []) 0 n_app n_app [] [t1; t2] [t2; t3] = PPlanned /\
+  Planner_plan never (Some []) 0 n_dev n_app [] [t1; t2] [t2] = PPlanned /\
+  Planner_plan never (Some []) 0 n_dev n_app [] [t1; t2] [t1; t2] = PNoPlan.
 Proof. repeat split; vm_compute; reflexivity. Qed.
 
 (* C16_one_identifier_sequence: ALTER TABLE <t> ( <t.c> ) , -- the chain of the first call is
